@@ -140,6 +140,7 @@ func run(def *propertyDef, id, repo, verif, tier string, seed int, list, noEvide
 	obs, stale := report.Resolve(id, obs, ff, ex)
 	obs, stale = movedJustifications(p, obs, stale, ex)
 	obs, stale = respelledLoops(verif, obs, stale, ex)
+	obs = justifiedLoopsStillCovered(verif, obs)
 
 	// instance floors (anti-vacuity)
 	perRule := map[string]int{}
@@ -424,9 +425,13 @@ func movedJustifications(p *prog.Program, obs []report.Obligation, stale []strin
 // the same one: same function, same map type, same module functions called from its body (loops.json holds the
 // signatures of the reference tree). The justification is about what the body does, not about the operand.
 func respelledLoops(verif string, obs []report.Obligation, stale []string, ex *report.Expectations) ([]report.Obligation, []string) {
-	ref := map[string]string{}
-	if b, err := os.ReadFile(filepath.Join(verif, "loops.json")); err != nil || json.Unmarshal(b, &ref) != nil {
+	full := map[string]rules.LoopRef{}
+	if b, err := os.ReadFile(filepath.Join(verif, "loops.json")); err != nil || json.Unmarshal(b, &full) != nil {
 		return obs, stale
+	}
+	ref := map[string]string{}
+	for k, v := range full {
+		ref[k] = v.Sig
 	}
 	staleSet := map[string]bool{}
 	for _, s := range stale {
@@ -457,6 +462,9 @@ func respelledLoops(verif string, obs []report.Obligation, stale []string, ex *r
 			if e.Rule != o.Rule || !staleSet[msg] || fn(e.Key) != fn(o.Key) || ref[e.Key] != sig {
 				continue
 			}
+			if extra := uncoveredReasons(d, full[e.Key]); len(extra) > 0 {
+				continue
+			}
 			o.Status = report.Justified
 			o.Why = strings.TrimSpace(o.Why + " | justified (same loop, ranged value re-spelled; was " + e.Key + "): " + e.Reason)
 			delete(staleSet, msg)
@@ -470,4 +478,58 @@ func respelledLoops(verif string, obs []report.Obligation, stale []string, ex *r
 		}
 	}
 	return obs, rest
+}
+
+// uncoveredReasons: the order-sensitive effects of a loop that the reference tree did not have. A justification was
+// written against the effects found then; it says nothing about an effect that appeared since.
+func uncoveredReasons(detail map[string]any, ref rules.LoopRef) []string {
+	have := map[string]bool{}
+	for _, r := range ref.Reasons {
+		have[r] = true
+	}
+	var extra []string
+	switch rs := detail["reasons"].(type) {
+	case []string:
+		for _, r := range rs {
+			if !have[r] {
+				extra = append(extra, r)
+			}
+		}
+	case []any:
+		for _, r := range rs {
+			if s, ok := r.(string); ok && !have[s] {
+				extra = append(extra, s)
+			}
+		}
+	}
+	return extra
+}
+
+// justifiedLoopsStillCovered: a justified map range (rule ORD) stays justified only while its order-sensitive
+// effects are among those the justification was written against (loops.json). A new effect - the callee now also
+// writes a cache through another argument - is reported, with the loop.
+func justifiedLoopsStillCovered(verif string, obs []report.Obligation) []report.Obligation {
+	full := map[string]rules.LoopRef{}
+	if b, err := os.ReadFile(filepath.Join(verif, "loops.json")); err != nil || json.Unmarshal(b, &full) != nil {
+		return obs
+	}
+	for i := range obs {
+		o := &obs[i]
+		if o.Status != report.Justified {
+			continue
+		}
+		d, ok := o.Detail.(map[string]any)
+		if !ok {
+			continue
+		}
+		ref, known := full[o.Key]
+		if !known || len(ref.Reasons) == 0 {
+			continue
+		}
+		if extra := uncoveredReasons(d, ref); len(extra) > 0 {
+			o.Status = report.Violation
+			o.Why = "the justification of this loop was written against other effects; new order-sensitive effect(s): " + strings.Join(extra, " | ") + " || " + o.Why
+		}
+	}
+	return obs
 }
